@@ -237,4 +237,27 @@ example : (handleQuery C3 32 20 mb1 req3
       · exact ⟨natBytes 7, by decide⟩
       · exact ⟨[7], by decide⟩)).1
 
+/-! ### the degenerate instance `f = []` (Review A #10)
+
+`hf : f.length ≤ t` admits the empty coefficient list, and `f.headD 0` is then `0`: the group whose shared
+secret is 0 (public key = the identity of G2).  The theorems above are TRUE there and say what they say
+everywhere – the report decodes to `f(0) • H(c) = 0` and satisfies the pairing equation under the key
+`0 • g₂` – but under that key the equation holds for `S = 0` whatever the message is, so "valid on chain"
+carries no information.  A key generation that ends with the zero polynomial is outside C01 (C04/C05:
+the constant term is the sum of the dealers' secrets).  The instance below makes the degenerate reading
+explicit; the non-degenerate instances are the examples above (`f = 4 + 3x`). -/
+
+private abbrev C0 : Crypto := tblsCrypto C02.toyCodec ([] : List (Zq 11)) (fun _ => (2 : Zq 11)) (threshold 3) 3
+private def mb1z : Member := { ids := ids3, me := List.replicate 20 0xB2, signOwn := fun _ => [0, 1, 0] }
+
+/-- zero secret: every share is the encoding of 0, the report is the encoding of 0 -/
+example : ((handleQuery C0 32 20 mb1z req3
+    [some { index := 0, rid := [7], content := some c3, sig := some [0, 2, 0] }]).reports.map (·.sig)) = [[0]] := by decide
+
+/-- for a polynomial that is not empty the key of the instance IS its constant term -/
+theorem key_is_constant_term (f : List F) (hf : f ≠ []) : f.headD 0 = f.head hf := by
+  cases f with
+  | nil => exact absurd rfl hf
+  | cons a l => rfl
+
 end Dos.Props.C01Compose
